@@ -12,4 +12,27 @@ CHECKS = {
     ),
 }
 
+CHECKS["C24"] = dict(
+    category="other",
+    technique="path-exhaustive symbolic execution of the real class (forksym proxies + z3), enumerated operation sequences over symbolic elements",
+    text="Real OrderedSet (and the MutableSet mixins it inherits) plus ordered_union/intersect/diff run on symbolic elements; every "
+         "equality pattern of the elements is a solver-decided path; results are compared after every operation with a "
+         "list-without-duplicates reference; counterexamples are replayed with concrete ints.",
+    note="Bounded operation sequences (see evidence bounds) over <=3 initial elements per set. Constant-hash proxies make OrderedDict "
+         "degrade to == chains, so hash-order effects of builtin set iteration are not modelled. Trusted: z3, forksym, the reference model.",
+    design_ref="DESIGN.md §4 C24",
+)
+CHECKS["C20"] = dict(
+    category="other",
+    technique="inductive step from an arbitrary symbolic state: forksym (z3 String keys, exhaustive paths) + CrossHair contracts (symbolic counter)",
+    text="For each data-space operation one step from an arbitrary symbolic map state is decided by z3 against map-update semantics for the "
+         "real DataModelSpace and real DBSpace; histories of any length follow by induction on the state. CrossHair re-checks the same "
+         "contracts with a symbolic counter (bug-finding; 'Not confirmed' is reported as inconclusive).",
+    note="Table contents are opaque ints; data model, describe_table and the database handle are stubs (dict-backed handle with the DBHandle "
+         "contract). State size <=2 (quick) / <=3 (thorough), counter values enumerated in forksym. Counterexamples are replayed on the contract "
+         "function concretely and on the real spaces with pandas frames / in-memory SQLite.",
+    design_ref="DESIGN.md §4 C20",
+    engine="forksym+z3, crosshair",
+)
+
 NOT_YET = {}
